@@ -43,6 +43,7 @@ type replyShape struct {
 	bodyOK       bool
 	bodyDetail   string
 	headerDetail string
+	otherStores  []string // further fields of the request's header that the function rewrites
 }
 
 func headerEncodeCalls(fn *ssa.Function) []*ssa.Call {
@@ -118,6 +119,8 @@ func extractReplyShape(fn *ssa.Function) (*replyShape, string) {
 				}
 			case "PlatformSerialNumber":
 				rs.serialVal = st.Val
+			default:
+				rs.otherStores = append(rs.otherStores, s.Field(fa.Field).Name())
 			}
 		}
 	}
@@ -264,6 +267,7 @@ func runC20(c *Ctx) {
 		add("reply frame = Encode of the request's header", true, "")
 		add("ReplyID = ReplyProtocol()", rs.replyIDOK, "the header's ReplyID is not set from ReplyProtocol()")
 		add("body = ReplyBody(the same message)", rs.bodyOK, rs.bodyDetail)
+		add("the request's own header fields are left as decoded", len(rs.otherStores) == 0, fmt.Sprintf("besides ReplyID and PlatformSerialNumber the function rewrites %v of the request's header before the reply is built: the reply body is computed from the request's header (the acknowledged serial is its SerialNumber, the ID its ID), so the prediction and the server's reply no longer describe the same request", dedupe(rs.otherStores)))
 		if fn == er {
 			_, isParam := rs.serialVal.(*ssa.Parameter)
 			add("platform serial = the given serial", isParam, "PlatformSerialNumber of the encoded header is not set to the seq argument")
@@ -746,7 +750,7 @@ func runC20(c *Ctx) {
 	res := c.RunE1(entries, true, nil)
 	c.AddE1(res, false)
 	R.Require("S.registry-agreement", 8, "")
-	R.Require("S.expected-reply", 9, "")
+	R.Require("S.expected-reply", 11, "")
 	R.Require("S.serial-progression", 4, "")
 	R.Require("E6.template", 3, "")
 	R.Explain = "Acceptance of every generated frame for every phone, and byte equality with a live server, are value-level and not decided. Decided: the simulator and the server register the same model types for all reply-bearing IDs they share; ExpectedReply and the server's reply function have the same construction (header of the decoded request, ReplyProtocol, serial, ReplyBody of the same message); the generators increment the serial once by one before the single Encode and nothing else writes it; the template frame's checksum covers the framed bytes and is escaped with the codec's table on every path (abstract interpretation of the closure); panic-freedom obligations of the simulator's functions."
